@@ -4,6 +4,8 @@ E1 history BFS (add/remove over a pool with colliding ids) to the fixpoint per w
 whole fault menu (duplicate id, unknown id, strict lookup of unknown id, out-of-range placement on every axis
 and side) is executed and must raise the documented error and leave the full snapshot bit-identical.
 """
+import math
+
 from mc.engine import hbfs, par
 from mc.engine.report import Violation
 from mc.engine.seams import Canon, public_snapshot, new_model
@@ -25,7 +27,9 @@ class XS(X):
 
 
 # (pool key, agent id, component types fixed before joining)
-AGENTS = [('a1', 'a1', ('X',)), ('a1b', 'a1', ('X', 'Y')), ('a2', 'a2', ()), ('a3', 'a3', ('XS', 'Y', 'X')),
+# PC: the library's own PositionComponent, attached by the user with the SAME coordinates on two agents (plain
+# environment only - spatial worlds attach their own)
+AGENTS = [('a1', 'a1', ('X',)), ('a1b', 'a1', ('X', 'Y')), ('a2', 'a2', ('PC',)), ('a3', 'a3', ('XS', 'Y', 'X', 'PC')),
           ('a4f', 'a4', ('X',))]      # a4f: agent and component were built for ANOTHER model (see FOREIGN)
 FOREIGN = {'a4f'}
 TYPES = {'X': X, 'Y': Y, 'XS': XS}
@@ -97,6 +101,13 @@ class Harness:
             owner = w.m2 if key in FOREIGN else w.model
             a = Core.Agent(aid, owner)
             for T in types:
+                if T == 'PC':
+                    if self.spec:
+                        continue
+                    c = Envs.PositionComponent(a, owner, 1.0, 2.0, 0.0)
+                    a.add_component(c)
+                    w.comps.append(c)
+                    continue
                 c = TYPES[T](a, owner)
                 a.add_component(c)
                 w.comps.append(c)
@@ -258,6 +269,9 @@ class Harness:
                     hi = dims[ax] + 0.5 if cont else dims[ax]
                     outs.append((ax, lo))
                     outs.append((ax, hi))
+                    # the nearest representable coordinates outside: one ulp above the last / below the first
+                    outs.append((ax, math.nextafter(dims[ax] if cont else dims[ax] - 1, math.inf)))
+                    outs.append((ax, math.nextafter(0.0, -math.inf)))
                     if not cont:
                         outs.append((ax, dims[ax] + 5))
                         outs.append((ax, -0.5))                 # fractional coordinates just outside a grid
